@@ -18,10 +18,11 @@ func init() {
 	})
 	reg(&Property{
 		ID: "C05", Pkgs: []string{"encoding/wkb", "encoding/hex"}, Level: "model_checking",
+		Opts: []HarnessOpt{{Prefix: "VH_C05_linestring_chunks", MaxSteps: 400_000_000}},
 		Rule: "one evaluation = one explored path (a geometry shape x byte order x per-element order choice) with all coordinates free 64-bit patterns; non-trivial = path ends with every assertion discharged",
 		Bounds: map[string]string{
 			"coordinates": "all 2^64 bit patterns per coordinate (NaN payloads, -0, Inf)",
-			"counts":      "0..2 members per level (thorough 0..3 for flat types), collections nested to depth 2",
+			"counts":      "0..2 members per level (thorough 0..3 for flat types), collections nested to depth 2; plus line strings of 4095, 4096, 4097 and 8193 points (the reader's chunk size is a constant of the code)",
 			"byte order":  "both for encode; independent per nested element for decode",
 		},
 		Assumptions: []string{
@@ -144,10 +145,13 @@ func init() {
 	reg(&Property{
 		ID: "C12", Pkgs: []string{"index/rtree"}, Level: "model_checking",
 		Rule: "one evaluation = one explored path (tree shape, sort order of branches, pruning and insertion decisions) with all boxes and the query point free grid values; non-trivial = path ends with all assertions discharged",
-		Opts: []HarnessOpt{{Prefix: "VH_C12_", Mode: "G", IfConv: true, Merge: rtMerge, MaxUnwind: 40, MaxSteps: 20_000_000, TimeoutMs: 300_000}},
+		Opts: []HarnessOpt{
+			{Prefix: "VH_C12_", Mode: "G", IfConv: true, Merge: rtMerge, MaxUnwind: 40, MaxSteps: 20_000_000, TimeoutMs: 180_000},
+			{Prefix: "VH_C12_knn_h2_wide", Mode: "G", IfConv: true, Merge: rtMerge, MaxUnwind: 40, MaxSteps: 20_000_000, TimeoutMs: 600_000, ThoroughOnly: true},
+		},
 		Hooks: []HookSpec{{File: "index/rtree/rtree.go", Funcs: []string{"pickSeeds", "pickNext", "assignGroup", "chooseNode"}}},
 		Bounds: map[string]string{
-			"trees": "well-formed trees of height 1 (1..3(4) entries) and height 2 (2(3) leaves x 1..2(3) entries), boxes and query point on the signed 3-bit integer grid",
+			"trees": "well-formed trees of height 1 (1..3(4) entries) and height 2 (2 leaves x 1..2 entries; thorough adds 3 leaves), boxes and query point on the signed 3-bit integer grid",
 			"k":     "1..3",
 		},
 		Assumptions: []string{"G mode: squared distances exact; math.Sqrt results are only compared (Lemma S: distinct integers have distinct, ordered rounded roots)", "sort.Sort executed from its real SSA"},
